@@ -17,7 +17,7 @@ RULE = ("Hypothesis generates one model (N<=4 quick, <=5 thorough) and 2-4 parti
 ASSUMPTIONS = ["the numpy reference is used only for the documented-drop bounds and scales, never as the expected value",
                "spectra with levels 1e-10..1e-6 apart are discarded"]
 CONFIG = {
-    "quick": {"flavours": ["real", "complex"], "shards": 8, "examples": 60, "min_nontrivial": 60, "budget_s": 110},
+    "quick": {"flavours": ["real", "complex"], "shards": 8, "examples": 250, "min_nontrivial": 60, "budget_s": 120},
     "thorough": {"flavours": ["real", "complex"], "shards": 16, "examples": 800, "min_nontrivial": 1000, "budget_s": 3300},
 }
 REQUIRED_CLASSES = {"quick": ["different-block-counts", "has-ignore", "has-default", "has-custom-accepted", "chi-nonzero"],
